@@ -93,10 +93,16 @@ def modal_template(rng, natoms=2):
     def lit():
         a = ('A', rng.randrange(natoms), 0)
         return a if rng.random() < 0.6 else ('O', 'Negation', (a,))
+    def mlit():
+        return ('O', rng.choice(('Possibility', 'Necessity')), (lit(),))
     def chain():
         s = lit()
-        if rng.random() < 0.25:
+        r = rng.random()
+        if r < 0.25:
             s = ('O', rng.choice(('Conjunction', 'Disjunction', 'MaterialConditional')), (s, lit()))
+        elif r < 0.45:
+            # sibling worlds carrying the same possibility under conflicting necessities
+            s = ('O', rng.choice(('Conjunction', 'Conjunction', 'Disjunction')), (mlit(), mlit()))
         for _ in range(rng.choice((1, 2, 2, 3))):
             s = ('O', rng.choice(('Possibility', 'Necessity')), (s,))
         if rng.random() < 0.2:
@@ -146,9 +152,32 @@ def modal_fo_template(rng, identity=False):
         return s
     return [wrap(p) for p in prems], wrap(conc)
 
+def identity_modal_template(rng):
+    "Identity statements and predications spread over several worlds (classical modal logics)."
+    cs = [('c', i, 0) for i in rng.sample(range(4), 2)]
+    F = (rng.randrange(2), 0, 1)
+    def box(s): return ('O', 'Necessity', (s,))
+    def dia(s): return ('O', 'Possibility', (s,))
+    def neg(s): return ('O', 'Negation', (s,))
+    ident = ('P', refsem.IDENTITY, tuple(cs if rng.random() < 0.7 else cs[::-1]))
+    Fa, Fb = ('P', F, (cs[0],)), ('P', F, (cs[1],))
+    atom = ('A', rng.randrange(2), 0)
+    # biased to statements that hold at every world meeting witnesses at several worlds
+    pool = [rng.choice((box(ident), box(ident), box(ident), ident, dia(ident))),
+            rng.choice((box(Fa), box(Fa), box(Fa), Fa, dia(Fa), box(box(Fa)))),
+            rng.choice((dia(neg(Fb)), dia(neg(Fb)), dia(neg(Fb)), neg(Fb), box(neg(Fb)), dia(dia(neg(Fb))), neg(dia(Fb)))),
+            rng.choice((dia(atom), dia(neg(atom)), dia(Fa), box(atom)))]
+    k = rng.choice((2, 3, 4, 4))
+    prems = rng.sample(pool, k)
+    rng.shuffle(prems)
+    conc = rng.choice((atom, neg(atom), Fb, dia(Fb), box(Fb), neg(ident), dia(atom)))
+    return prems, conc
+
 def gen_case(rng, logic, fragment=None, p_example=0.3):
     prof = profile_for(rng, logic, fragment)
     sem = refsem.get(logic)
+    if fragment is None and sem.modal and sem.classical and rng.random() < 0.25:
+        return identity_modal_template(rng)
     if fragment is None and sem.modal and sem.quantified and rng.random() < 0.1:
         return modal_fo_template(rng, identity=sem.classical)
     if fragment in (None, 'modal') and sem.modal and rng.random() < (0.5 if sem.frame == 'D' else 0.3):
